@@ -10,6 +10,7 @@ pub mod c10;
 pub mod common;
 pub mod rig;
 pub mod robs;
+pub mod wb;
 
 use crate::evidence::Ctx;
 
@@ -21,6 +22,8 @@ pub fn dispatch(ctx: &Ctx) -> Option<i32> {
         "C04" => c04_check(ctx),
         "C06" => c06_check(ctx),
         "C13" => c13_check(ctx),
+        "C15" => c15_check(ctx),
+        "C16" => c16_check(ctx),
         "C14" => c14_check(ctx),
         "C07" => c07_check(ctx),
         "C08" => c08_check(ctx),
@@ -332,6 +335,36 @@ fn c14_check(ctx: &Ctx) -> i32 {
         assumptions: vec!["judged at quiescence only (transient states while events are in flight are not judged)".into()],
         exhaustive: false,
         min_nontrivial: ctx.tier.pick(2000, 20000),
+        extra: BTreeMap::new(),
+    };
+    finish(ctx, agg, rep)
+}
+
+fn c15_check(ctx: &Ctx) -> i32 {
+    let budget = Duration::from_secs(ctx.tier.pick(30, 300));
+    let agg = shard_runs(ctx, "main", ctx.tier.pick(20_000, 1_500_000), budget, Duration::from_secs(30), Arc::new(wb::c15_run));
+    let rep = Report {
+        level: "exploration",
+        rule: "one case = one seeded run: a watch channel with 1-40 increasing updates at random rates (back-to-back, yields, quiescence points); the receiver half is transferred to another endpoint (1 or 2 hops) at a random update index while updates continue, or the sender half is transferred; an extra receiver subscribes at a random index; observation through changed+borrow_and_update, changed+borrow, wait_for or the stream; in 70% of the runs the sender is dropped immediately after the last send. Non-trivial iff a receiver skipped >=1 value (coalescing path) or 2 hops were used. Distinct by hash(seed parameters, interleaving signature).".into(),
+        explanation: "Per receiver: only sent values, never an older value after a newer one; at quiescence of the healthy connection the last observed value equals the last value sent (also the one sent right before the sender dropped) and the observation loop has ended when the sender was dropped.".into(),
+        assumptions: vec!["values are increasing integers, so 'in sending order' is monotonicity".into()],
+        exhaustive: false,
+        min_nontrivial: ctx.tier.pick(300, 3000),
+        extra: BTreeMap::new(),
+    };
+    finish(ctx, agg, rep)
+}
+
+fn c16_check(ctx: &Ctx) -> i32 {
+    let budget = Duration::from_secs(ctx.tier.pick(30, 300));
+    let agg = shard_runs(ctx, "main", ctx.tier.pick(20_000, 1_500_000), budget, Duration::from_secs(30), Arc::new(wb::c16_run));
+    let rep = Report {
+        level: "exploration",
+        rule: "one case = one seeded run: 1-60 broadcast sends in bursts; 1-4 subscribers joining at random indices with send buffer and receive buffer in {1,2,4}, consumption rate and burst size per subscriber, local or transferred to the other endpoint, some never reading; optionally a subscriber that drains between all sends. Non-trivial iff >=1 subscriber was lagged. Distinct by hash(subscriber parameters, interleaving signature).".into(),
+        explanation: "Lag-marker grammar per subscriber: values strictly increasing; a gap only with a Lagged error between its neighbours; no Lagged without a gap; a subscriber whose stream ended must have got the last value or a Lagged after its last value; a draining subscriber sees every value and no Lagged; every reading subscriber reaches the end of the broadcast by quiescence although others are slow or never read.".into(),
+        assumptions: vec!["values are consecutive integers".into()],
+        exhaustive: false,
+        min_nontrivial: ctx.tier.pick(300, 3000),
         extra: BTreeMap::new(),
     };
     finish(ctx, agg, rep)
